@@ -14,7 +14,8 @@ MANIFEST = dict(
          "that is not a declared name and for non-string JSON / non-[]byte SQL input; decode(encode(c)) = c for every declared c. Tied to the code by "
          "running the rebuilt `shoot enum` with all 2^3 codec flag sets (+ -gorm against a stub module), compiling, and calling the real encoding/json, "
          "encoding.Text*, database/sql/driver and the shoot helpers on declared names, case variants, prefixed names, decimals, empty, near misses, "
-         "non-string JSON, non-[]byte SQL and a window of integers. IsEnum on an integer outside the type wraps (finding region).",
+         "non-string JSON, non-[]byte SQL and a window of integers; IsEnum over all 10 integer types TV. IsEnum on an integer whose sign-reinterpreted bit "
+         "pattern is a declared value of the opposite sign is the remaining finding region.",
     note="Lean kernel + standard axioms; encoding/json string encode/decode and the SQL text transport are externals.",
     technique="Lean 4 proof (association-list lemmas over the sorted constant table) + differential correspondence on generated enums",
     design="5/C12")
@@ -39,27 +40,21 @@ def make_cases(ctx, cid, en, flags):
     und = [v for v in ints if v not in vals]
     rng.shuffle(und)
     encs = sorted(set(vals[:8] + und[:6]))
-    tints = []
-    if nb < 64:
-        m = 1 << nb
-        for v in vals[:3]:
-            tints += [v + m, v - m, v + 2 * m]
-        tints += [hi + 1, lo - 1, hi + m]
-        tints = sorted(set(tints))
+    main_ints = [("int64", [v for v in ints if -enumgen.MAXI64 - 1 <= v <= enumgen.MAXI64]), ("uint64", [v for v in ints if v > enumgen.MAXI64])]
+    main_ints = [(tv, vs) for tv, vs in main_ints if vs]
+    tints = enumgen.isenum_matrix(kind, decl)
     extra = [["flags"] + flags, ["target", str(target)], ["strs"] + [Q(s) for s in strs],
              ["jsons"] + [l for _, l in jsons], ["sqls"] + [l for _, l in sqls],
-             ["ints"] + [str(v) for v in ints], ["encs"] + [str(v) for v in encs]]
+             ["ints"] + [[tv] + [str(v) for v in vs] for tv, vs in main_ints], ["encs"] + [str(v) for v in encs]]
     args = ["enum"] + ["-" + f for f in flags] + ["-type=" + T]
     main = {"id": cid, "en": en, "decl": decl, "flags": flags, "files": enumgen.render_files(en),
             "runs": [{"args": args}],
-            "oracle": {".": enumgen.oracle_c12(en, decl, flags, target, strs, jsons, sqls, ints, encs, tints)},
+            "oracle": {".": enumgen.oracle_c12(en, decl, flags, target, strs, jsons, sqls, main_ints, encs, tints)},
             "sexp": enumgen.case_sexp(cid, "c12", en, extra), "cmd": "shoot " + " ".join(args), "kind": "main",
             "probes": {"strs": strs, "jsons": [t for t, _ in jsons], "sqls": [e for e, _ in sqls]}}
-    sub = None
-    if tints:
-        sub = {"id": cid + "t", "en": en, "decl": decl, "flags": flags, "kind": "trunc",
-               "sexp": enumgen.case_sexp(cid + "t", "c12t", en, [["ints"] + [str(v) for v in tints]]),
-               "cmd": "shoot.IsEnum[%s, int64](v) for v outside %s" % (T, kind)}
+    sub = {"id": cid + "t", "en": en, "decl": decl, "flags": flags, "kind": "trunc",
+           "sexp": enumgen.case_sexp(cid + "t", "c12t", en, [["ints"] + [[tv] + [str(v) for v in vs] for tv, vs in tints]]),
+           "cmd": "shoot.IsEnum[%s, TV](v) for every integer type TV" % T}
     return main, sub
 
 
@@ -150,8 +145,9 @@ def run(ctx, obl):
                 "shoot.ParseEnum/TryParseEnum/IsEnum are executed on: every declared (trimmed) name, lower/upper/swapped case variants, constant names "
                 "with the type prefix, decimal strings of declared values, empty, blanks, near misses, a \\u-escaped JSON spelling, non-string JSON "
                 "(null, numbers, bools, arrays, objects), non-[]byte SQL values (string, int64, nil, float64, bool, time.Time, the enum itself), with a "
-                "preset non-zero undeclared target; IsEnum on a window of integers (min-3..max+3, gaps, type min/max) and, as a separate case, on "
-                "integers outside the type. non-trivial = distinct (enum, flag set) with at least two constants")
+                "preset non-zero undeclared target; IsEnum[T, int64/uint64] on a window of integers (min-3..max+3, gaps, type min/max) and, as a "
+                "separate case, IsEnum[T, TV] for all 10 integer types TV on declared values, the integers that wrap onto them in T, their "
+                "reinterpretations in TV and the corners of both types. non-trivial = distinct (enum, flag set) with at least two constants")
     res.assumptions = ["encoding/json string encode/decode are inverse on ASCII identifiers; a JSON document is classified by Python's json module",
                        "a SQL text column hands Scan the bytes of the string that Value returned (Scan(Value()) itself is a string and is rejected by design of the template)",
                        "int and uint are 64 bit wide"]
